@@ -298,6 +298,11 @@ def run(ctx):
     for bad, why in ((lambda: pe.cov_Obs(1.0, 0.1, "a|b"), "'|' in a covariance name"),
                      (lambda: pe.cov_Obs([1.0, 2.0], [[1.0, 0.5], [0.2, 1.0]], "asym"), "asymmetric covariance"),
                      (lambda: pe.cov_Obs([1.0, 2.0], [[1.0, 2.0], [2.0, 1.0]], "indef"), "indefinite covariance"),
+                     # asymmetry is a property of the matrix, not of its scale: small covariances (errors of 1e-5 .. 1e-7) are ordinary
+                     (lambda: pe.cov_Obs([1.0, 2.0], [[2e-10, 5e-11], [-5e-11, 1e-10]], "asymS"), "asymmetric covariance"),
+                     (lambda: pe.cov_Obs([1.0, 2.0], [[2e-10, 5e-11], [2e-11, 1e-10]], "asymT"), "asymmetric covariance"),
+                     (lambda: pe.cov_Obs([1.0, 2.0, 3.0], [[3e-13, 1e-13, 0.0], [1e-13, 2e-13, 1e-14], [0.0, -1e-14, 2e-13]], "asymU"), "asymmetric covariance"),
+                     (lambda: pe.cov_Obs([1.0, 2.0], [[2e-10, -3e-10], [-3e-10, 1e-10]], "indefS"), "indefinite covariance"),
                      (lambda: pe.cov_Obs([1.0, 2.0], [[1.0, 0.0, 0.0], [0.0, 1.0, 0.0]], "nonsq"), "non-square covariance")):
         try:
             bad()
